@@ -204,6 +204,48 @@ def selftest(ctx, c, trace):
     ctx.cov["binding_selftest"] = "; ".join(outcomes)
 
 
+def stress(ctx):
+    """Thorough tier: the concurrent driver built with the race detector; the same monitor judges its samples."""
+    import glob
+    import re
+    import subprocess
+    binp = ctx.path("vdrive_txpool_race")
+    cmd = ["go", "build", "-race", "-tags", "verif", "-o", binp]
+    if vlib.REPO != "/repo":
+        tag = "_" + re.sub(r"\W+", "_", vlib.REPO)
+        cmd += ["-modfile=" + os.path.join(vlib.WORK, "bin", "go%s.mod" % tag)]      # written by build_harness
+    p = subprocess.run(cmd + ["./cmd/txpool"], cwd=vlib.HARNESS, env=vlib.goenv(), stdout=subprocess.PIPE, stderr=subprocess.STDOUT, text=True)
+    if p.returncode != 0:
+        raise vlib.Undecided("race build of the txpool driver failed:\n" + p.stdout[-3000:])
+    trace = ctx.path("trace_stress.ndjson")
+    logp = ctx.path("race.log")
+    for f in glob.glob(logp + "*"):
+        os.remove(f)
+    saved = ctx.vdrives.get("txpool")
+    ctx.vdrives["txpool"] = binp
+    os.environ["GORACE"] = "exitcode=0 log_path=%s" % logp
+    try:
+        ctx.drive("txpool", trace, opts={"mode": "stress", "traces": 60, "rounds": 40})
+    finally:
+        os.environ.pop("GORACE", None)
+        if saved:
+            ctx.vdrives["txpool"] = saved
+    n = vlib.count_traces(trace)
+    ctx.cov["traces_validated_against_impl"] += n
+    ctx.cov["evaluations"] += n
+    ctx.cov["stress_traces"] = n
+    vlib.monitor(ctx, "TxPool_Mon", "TxPool_Mon.cfg", trace, name="Mon_stress", replay_meta={"driver": "txpool", "mode": "stress"})
+    # "or race": the race detector's verdict on the runs performed (DESIGN section 8)
+    reports = []
+    for f in sorted(glob.glob(logp + "*")):
+        reports.append(open(f).read())
+    ctx.cov["race_reports"] = len(reports)
+    for r in reports[:3]:
+        m = re.search(r"(?:Write|Read) at .*?\n\s+(\S+)\(", r)
+        where = m.group(1).split("/")[-1] if m else "unknown"
+        ctx.report("C20/NoRace/" + where, None, {"report": r[:2500]})
+
+
 def witnesses():
     out = []
     wdir = os.path.join(vlib.VERIF, "findings")
@@ -252,6 +294,8 @@ def run(ctx):
             keep = (c, trace)
     if not quick and keep:
         selftest(ctx, *keep)
+    if not quick:
+        stress(ctx)
     fired = ctx.cov.get("clauses_fired", {})
     idle = sorted(k for k in CLAUSES if not fired.get(k))
     if idle:
